@@ -250,3 +250,42 @@ Theorem C09_every_history_of_adds_prunes_ingests :
                                    (snd (MapMutUnify.hfinal H HO full ([], []) l)) = Some al /\ In p al).
 Proof. exact MapMutUnify.history_ok. Qed.
 Print Assumptions C09_every_history_of_adds_prunes_ingests.
+
+(** ** Deletions (Proofs/MapMutRemove.v): a block without additions that deletes ANY set of remembered
+    leaves - siblings, whole subtrees, whole trees; targets in any order; full and partial forests, any
+    allocated height - runs on the mirror of [MapPollard.Modify] without error and keeps the invariant
+    [MapMutRemove.Inv] (which implies [consistent]): every stored hash is the true hash of the node now
+    there (moved-up subtrees included), the remaining remembered leaves stay cached at their new true
+    positions, flagged, with the siblings on their proof paths stored.  ("stores nothing beyond..." for
+    deletions: validated by the correspondence run and by exhaustive computation on small forests; its
+    proof is in progress.) *)
+From Utreexo Require Proofs.MapMutRemove.
+From Coq Require Import Permutation.
+
+Theorem C09_deletions_preserve_invariant :
+  forall (H : Type) (HO : ops H), ops_ok HO ->
+  forall (s : slots H) (R : list H) (m : mstate H) (xs : list (node H)) (dels : list H)
+         (targets : list N) (proof : list H),
+    MapMutRemove.Inv HO s R m -> NoDup xs ->
+    (forall x, In x xs -> In x (layout HO s) /\ nleaf x = true /\ In (nhash x) R) ->
+    (forall h, In h dels <-> (exists x, In x xs /\ nhash x = h)) ->
+    Permutation targets (map (npos (rows_of (num_leaves s))) xs) ->
+    exists m', mm_modify HO m [] dels targets proof = Some m' /\
+      MapMutRemove.Inv HO (kill HO dels s) (filter (fun h => negb (memH HO h dels)) R) m'.
+Proof. exact MapMutRemove.mm_modify_delete_leaves. Qed.
+Print Assumptions C09_deletions_preserve_invariant.
+
+Theorem C09_deletions_by_hash_preserve_invariant :
+  forall (H : Type) (HO : ops H), ops_ok HO ->
+  forall (s : slots H) (R : list H) (m : mstate H) (dels proof : list H),
+    MapMutRemove.Inv HO s R m -> NoDup dels -> (forall h, In h dels -> In h R) ->
+    exists m', mm_modify HO m [] dels (GetLeafHashPositions HO m dels) proof = Some m' /\
+      MapMutRemove.Inv HO (kill HO dels s) (filter (fun h => negb (memH HO h dels)) R) m'.
+Proof. exact MapMutRemove.mm_modify_delete_hashes. Qed.
+Print Assumptions C09_deletions_by_hash_preserve_invariant.
+
+Theorem C09_del_invariant_gives_read_side :
+  forall (H : Type) (HO : ops H), ops_ok HO ->
+  forall (s : slots H) (R : list H) (m : mstate H), MapMutRemove.Inv HO s R m -> consistent HO s R m.
+Proof. exact MapMutRemove.Inv_consistent. Qed.
+Print Assumptions C09_del_invariant_gives_read_side.
